@@ -174,6 +174,36 @@ def run(repo, rep):
               'asceprovider:Association._handle_errors:rejection-fields', he.loc(),
               'the requestor\'s AssociationRejectedError carries the PDU\'s result, source, reason in order',
               '; '.join(sorted(p_ for p_ in probs if 'Rejected' in p_ or 'AAssociateRjPDU' in p_)))
+    # J2b: abort() of either side puts its source and the caller's reason into the A-ABORT
+    for cname, src_want in (('AssociationAcceptor', '2'), ('AssociationRequester', '0')):
+        af = repo.cls('asceprovider', cname).find_method('abort')
+        if af is None:
+            raise AnalysisError('%s.abort not found' % cname)
+        rep.analysed(af)
+        ca = SymClient(repo, af, event_of=ev, hierarchy=hier)
+        ca.run(empty_state())
+        pa = []
+        snd = [(e, s) for e, s in ca.log if e.kind == 'dul.send']
+        kl = [(e, s) for e, s in ca.log if e.kind == 'kill']
+        if len(snd) != 1:
+            pa.append('%d PDUs sent by abort()' % len(snd))
+        else:
+            tok = snd[0][0].args[0]
+            fl = snd[0][0].fields(tok)
+            if not (is_token(tok) and token_class(tok) == 'AAbortPDU'):
+                pa.append('abort() sends %s' % tok)
+            else:
+                if fl.get('@reason_diag') != af.params[1]:
+                    pa.append('A-ABORT reason is %s, not the reason given to abort()' % fl.get('@reason_diag'))
+                if fl.get('@source') != src_want:
+                    pa.append('A-ABORT source is %s, expected %s (%s)' % (fl.get('@source'), src_want,
+                              'service-provider' if src_want == '2' else 'service-user'))
+        if not kl:
+            pa.append('abort() does not stop the association')
+        elif snd and kl[0][0].line < snd[0][0].line:
+            pa.append('the association is stopped before the A-ABORT is queued')
+        rep.check(not pa, 'C14.J2', 'asceprovider:%s.abort:pdu-fields' % cname, af.loc(),
+                  'A-ABORT(source %s, reason = argument) queued, then the association is stopped' % src_want, '; '.join(pa))
     # _get_dul_message: DIMSE tuples returned, PDUs mapped
     gm = base.find_method('_get_dul_message')
     rep.analysed(gm)
